@@ -17,15 +17,20 @@
   `Failed` can not hold when every call is granted (`not_failed_of_granted`), so a fault-free run
   takes the success branch.
 
+  Definitions: `WF`, `Failed`, `Post` in Lemmas/Alloc.lean; `AlKeptOrMoved`, `LhOK`, `ObjAdded`, `keep` in
+  Lemmas/AllocOps.lean; `OwnedIn` in Lemmas/AllocTree.lean; `srcOK` in Lemmas/AllocCopy.lean.  The proofs
+  (weakest-precondition style, one lemma per allocator primitive) are in Lemmas/AllocSpec.lean and
+  Lemmas/AllocCopy.lean; this file restates each result and instantiates it.
+
   What is NOT proved here (MANIFEST: fault enumeration): the allocation sequence of whole workloads
   (parse, serialize of an arbitrary tree, patch); the tie of this hand-written model to the C code is
   the correspondence run (request traces compared call by call) and the shape facts of st_alloc.py.
 -/
-import JsonC.Lemmas.AllocTree
+import JsonC.Lemmas.AllocCopy
+import JsonC.Model.AllocSer
 
 namespace JsonC.Alloc
 open JsonC Generated
-
 
 /-! ## printbuf.c -/
 
@@ -33,32 +38,8 @@ open JsonC Generated
 theorem pbNew_clean (g : Oracle) (h : Heap) (hwf : WF h) :
     Post pbNew g h (fun r h' => WF h' ∧ h.next ≤ h'.next ∧
       ((∃ p, r = some p ∧ h'.live = h.live ++ [p.self, p.buf] ∧ p.size = pbInitSize ∧ p.bpos = 0 ∧ h'.errno = h.errno) ∨
-       (r = none ∧ h'.live = h.live ∧ Failed g h h'))) := by
-  unfold pbNew calloc malloc
-  apply Post.bind
-  apply Post.alloc hwf
-  · intro hg h1 hn hl he hwf1
-    dsimp only
-    apply Post.bind
-    apply Post.alloc hwf1
-    · intro hg2 h2 hn2 hl2 he2 hwf2
-      dsimp only
-      apply Post.pure
-      refine ⟨hwf2, by omega, Or.inl ⟨_, rfl, ?_, rfl, rfl, by rw [he2, he]⟩⟩
-      simp [hl2, hl, hn]
-    · intro hg2 h2 hn2 hl2 he2 hwf2
-      dsimp only
-      apply Post.bind
-      apply Post.free hwf2 (by simp [hl2, hl])
-      intro h3 hn3 hl3 he3 hwf3
-      apply Post.pure
-      refine ⟨hwf3, by omega, Or.inr ⟨rfl, ?_, ?_⟩⟩
-      · rw [hl3, hl2, hl, filter_append_self (fresh_not_mem hwf _)]
-      · exact ⟨h1.next + 1, by omega, by omega, hg2⟩
-  · intro hg h1 hn hl he hwf1
-    dsimp only
-    apply Post.pure
-    exact ⟨hwf1, by omega, Or.inr ⟨rfl, hl, ⟨h.next + 1, by omega, by omega, hg⟩⟩⟩
+       (r = none ∧ h'.live = h.live ∧ Failed g h h'))) :=
+  pbNew_spec g h hwf
 
 /-- printbuf_extend: nothing to do, or the buffer block replaced by a larger one, or -1 with the
 printbuf and the heap unchanged (EFBIG without any allocation, or the realloc was refused) -/
@@ -68,38 +49,8 @@ theorem pbExtend_clean (g : Oracle) (h : Heap) (hwf : WF h) (p : PbA) (m : Int) 
        (r.2 = 0 ∧ r.1.self = p.self ∧ r.1.bpos = p.bpos ∧ m ≤ r.1.size ∧ p.size ≤ r.1.size ∧
           h'.live = h.live.filter (· != p.buf) ++ [r.1.buf] ∧ h'.next = h.next + 1 ∧ r.1.buf.id = h.next + 1) ∨
        (r.2 = -1 ∧ r.1 = p ∧ h'.live = h.live ∧
-          ((h'.errno = .EFBIG ∧ m > INT_MAX - pbExtendGuard ∧ h'.next = h.next) ∨ Failed g h h')))) := by
-  obtain ⟨_, _, _, ht, _⟩ := shape_facts
-  unfold pbExtend
-  by_cases h1 : (p.size : Int) ≥ m
-  · rw [if_pos h1]
-    apply Post.pure
-    exact ⟨hwf, Nat.le_refl _, Or.inl ⟨rfl, rfl, h1, rfl, rfl⟩⟩
-  · rw [if_neg h1]
-    by_cases h2 : m > INT_MAX - pbExtendGuard
-    · rw [if_pos h2]
-      apply Post.bind
-      apply Post.setErrno
-      intro h1' hn hl he
-      apply Post.pure
-      exact ⟨hwf.step (by omega) hl, by omega, Or.inr (Or.inr ⟨rfl, rfl, hl, Or.inl ⟨he, h2, hn⟩⟩)⟩
-    · rw [if_neg h2, if_neg (by rw [ht]; decide)]
-      obtain ⟨n, hn, hpos, hmn, hsn⟩ := pbNewSize_ok p.size m hm h2 (by omega)
-      apply Post.bind
-      apply Post.liftO hn
-      rw [if_neg (by omega)]
-      apply Post.bind
-      apply Post.realloc hwf hb
-      · intro hg h1' hn1 hl1 he1 hwf1
-        dsimp only
-        apply Post.pure
-        refine ⟨hwf1, by omega, Or.inr (Or.inl ⟨rfl, rfl, rfl, ?_, ?_, hl1, hn1, rfl⟩)⟩
-        · dsimp only; omega
-        · dsimp only; omega
-      · intro hg h1' hn1 hl1 he1 hwf1
-        dsimp only
-        apply Post.pure
-        exact ⟨hwf1, by omega, Or.inr (Or.inr ⟨rfl, rfl, hl1, Or.inr ⟨h.next + 1, by omega, by omega, hg⟩⟩)⟩
+          ((h'.errno = .EFBIG ∧ m > INT_MAX - pbExtendGuard ∧ h'.next = h.next) ∨ Failed g h h')))) :=
+  pbExtend_spec g h hwf p m hb hm
 
 /-- printbuf_memappend (contents abstracted): served with the buffer kept or replaced, or refused with
 the printbuf and the heap unchanged -/
@@ -108,54 +59,8 @@ theorem pbMemappend_clean (g : Oracle) (h : Heap) (hwf : WF h) (p : PbA) (size :
       ((r.2 = size ∧ 0 ≤ size ∧ r.1.self = p.self ∧ r.1.bpos = p.bpos + size.toNat ∧ r.1.bpos < r.1.size ∧
           ((r.1.buf = p.buf ∧ r.1.size = p.size ∧ h'.live = h.live ∧ h'.next = h.next) ∨
            (h'.live = h.live.filter (· != p.buf) ++ [r.1.buf] ∧ h'.next = h.next + 1 ∧ r.1.buf.id = h.next + 1))) ∨
-       (r.2 = -1 ∧ r.1 = p ∧ h'.live = h.live ∧ (h'.errno = .EFBIG ∨ Failed g h h')))) := by
-  unfold pbMemappend
-  by_cases h0 : size < 0 ∨ size > INT_MAX - p.bpos - 1
-  · rw [if_pos h0]
-    apply Post.bind
-    apply Post.setErrno
-    intro h1 hn hl he
-    apply Post.pure
-    exact ⟨hwf.step (by omega) hl, by omega, Or.inr ⟨rfl, rfl, hl, Or.inl he⟩⟩
-  · rw [if_neg h0]
-    by_cases h1 : (p.size : Int) ≤ p.bpos + size + 1
-    · rw [if_pos h1]
-      apply Post.seq (pbExtend_clean g h hwf p _ hb (by omega))
-      rintro ⟨q, rc⟩ h' ⟨hwf', hn', hcase⟩
-      rcases hcase with ⟨hrc, hq, hge, hl, hnx⟩ | ⟨hrc, hs, hbp, hmq, hpq, hl, hnx, hid⟩ | ⟨hrc, hq, hl, herr⟩
-      · simp only at hrc hq hge hl hnx
-        subst hrc; subst hq
-        dsimp only
-        rw [if_neg (by decide)]
-        apply Post.pure
-        refine ⟨hwf', hn', Or.inl ⟨rfl, by omega, rfl, rfl, ?_, Or.inl ⟨rfl, rfl, hl, hnx⟩⟩⟩
-        dsimp only; omega
-      · simp only at hrc hs hbp hmq hpq hl hnx hid
-        subst hrc
-        dsimp only
-        rw [if_neg (by decide)]
-        apply Post.pure
-        refine ⟨hwf', hn', Or.inl ⟨rfl, by omega, hs, ?_, ?_, Or.inr ⟨hl, hnx, hid⟩⟩⟩
-        · dsimp only; rw [hbp]
-        · dsimp only; omega
-      · simp only at hrc hq hl
-        subst hrc; subst hq
-        dsimp only
-        rw [if_pos (by decide)]
-        apply Post.pure
-        refine ⟨hwf', hn', Or.inr ⟨rfl, rfl, hl, ?_⟩⟩
-        rcases herr with ⟨he, _, _⟩ | hf
-        · exact Or.inl he
-        · exact Or.inr hf
-    · rw [if_neg h1]
-      apply Post.bind
-      apply Post.pure
-      dsimp only
-      rw [if_neg (by decide)]
-      apply Post.pure
-      refine ⟨hwf, Nat.le_refl _, Or.inl ⟨rfl, by omega, rfl, rfl, ?_, Or.inl ⟨rfl, rfl, rfl, rfl⟩⟩⟩
-      dsimp only; omega
-
+       (r.2 = -1 ∧ r.1 = p ∧ h'.live = h.live ∧ (h'.errno = .EFBIG ∨ Failed g h h')))) :=
+  pbMemappend_spec g h hwf p size hb
 
 /-! ## arraylist.c -/
 
@@ -164,37 +69,8 @@ theorem alNew2_clean (g : Oracle) (h : Heap) (hwf : WF h) (n : Int) :
     Post (alNew2 n) g h (fun r h' => WF h' ∧ h.next ≤ h'.next ∧
       ((∃ a, r = some a ∧ h'.live = h.live ++ [a.self, a.array] ∧ a.size = n.toNat ∧ a.length = 0 ∧ 0 ≤ n) ∨
        (r = none ∧ h'.live = h.live ∧
-          (Failed g h h' ∨ ((n < 0 ∨ n.toNat ≥ SIZE_T_MAX / PTR) ∧ h'.next = h.next))))) := by
-  unfold alNew2
-  by_cases h0 : n < 0 ∨ n.toNat ≥ SIZE_T_MAX / PTR
-  · rw [if_pos h0]
-    apply Post.pure
-    exact ⟨hwf, Nat.le_refl _, Or.inr ⟨rfl, rfl, Or.inr ⟨h0, rfl⟩⟩⟩
-  · rw [if_neg h0]
-    unfold malloc
-    apply Post.bind
-    apply Post.alloc hwf
-    · intro hg h1 hn hl he hwf1
-      dsimp only
-      apply Post.bind
-      apply Post.alloc hwf1
-      · intro hg2 h2 hn2 hl2 he2 hwf2
-        dsimp only
-        apply Post.pure
-        refine ⟨hwf2, by omega, Or.inl ⟨_, rfl, ?_, rfl, rfl, by omega⟩⟩
-        simp [hl2, hl, hn]
-      · intro hg2 h2 hn2 hl2 he2 hwf2
-        dsimp only
-        apply Post.bind
-        apply Post.free hwf2 (by simp [hl2, hl])
-        intro h3 hn3 hl3 he3 hwf3
-        apply Post.pure
-        refine ⟨hwf3, by omega, Or.inr ⟨rfl, ?_, Or.inl ⟨h1.next + 1, by omega, by omega, hg2⟩⟩⟩
-        rw [hl3, hl2, hl, filter_append_self (fresh_not_mem hwf _)]
-    · intro hg h1 hn hl he hwf1
-      dsimp only
-      apply Post.pure
-      exact ⟨hwf1, by omega, Or.inr ⟨rfl, hl, Or.inl ⟨h.next + 1, by omega, by omega, hg⟩⟩⟩
+          (Failed g h h' ∨ ((n < 0 ∨ n.toNat ≥ SIZE_T_MAX / PTR) ∧ h'.next = h.next))))) :=
+  alNew2_spec g h hwf n
 
 /-- array_list_expand_internal: capacity reached (array kept or replaced), or -1 with the list and the
 heap unchanged.  (The realloc result goes through a temporary: `allocAlExpandChecksTemp`.) -/
@@ -203,87 +79,16 @@ theorem alExpand_clean (g : Oracle) (h : Heap) (hwf : WF h) (a : AlA) (max : Nat
       ((r.2 = 0 ∧ AlKeptOrMoved h a r.1 h' ∧ r.1.length = a.length ∧ max ≤ r.1.size ∧
           (r.1.size = a.size ∨ (a.size ≤ max ∧ (r.1.size = max ∨ r.1.size = a.size * 2)))) ∨
        (r.2 = -1 ∧ r.1 = a ∧ h'.live = h.live ∧
-          (Failed g h h' ∨ (h'.next = h.next ∧ (max > SIZE_T_MAX / PTR ∨ a.size * 2 > SIZE_T_MAX / PTR)))))) := by
-  obtain ⟨_, hexp, _⟩ := shape_facts
-  unfold alExpand
-  by_cases h0 : max < a.size
-  · rw [if_pos h0]
-    apply Post.pure
-    exact ⟨hwf, Nat.le_refl _, Or.inl ⟨rfl, ⟨rfl, Or.inl ⟨rfl, rfl, rfl, rfl⟩⟩, rfl, Nat.le_of_lt h0, Or.inl rfl⟩⟩
-  · rw [if_neg h0]
-    obtain ⟨n, hn, hmax, hnc⟩ := alNewSize_ok a.size max
-    apply Post.bind
-    apply Post.liftO hn
-    by_cases h1 : n > SIZE_T_MAX / PTR
-    · rw [if_pos h1]
-      apply Post.pure
-      refine ⟨hwf, Nat.le_refl _, Or.inr ⟨rfl, rfl, rfl, Or.inr ⟨rfl, ?_⟩⟩⟩
-      rcases hnc with hnc | hnc
-      · exact Or.inl (hnc ▸ h1)
-      · exact Or.inr (hnc ▸ h1)
-    · rw [if_neg h1, if_neg (by rw [hexp]; decide)]
-      apply Post.bind
-      apply Post.liftO (bytes_ok n _ h1)
-      apply Post.bind
-      apply Post.realloc hwf hb
-      · intro hg h1' hn1 hl1 he1 hwf1
-        dsimp only
-        apply Post.pure
-        exact ⟨hwf1, by omega, Or.inl ⟨rfl, ⟨rfl, Or.inr ⟨hl1, hn1, rfl⟩⟩, rfl, hmax, Or.inr ⟨by omega, hnc⟩⟩⟩
-      · intro hg h1' hn1 hl1 he1 hwf1
-        dsimp only
-        apply Post.pure
-        exact ⟨hwf1, by omega, Or.inr ⟨rfl, rfl, hl1, Or.inl ⟨h.next + 1, by omega, by omega, hg⟩⟩⟩
+          (Failed g h h' ∨ (h'.next = h.next ∧ (max > SIZE_T_MAX / PTR ∨ a.size * 2 > SIZE_T_MAX / PTR)))))) :=
+  alExpand_spec g h hwf a max hb
 
 /-- array_list_shrink: same shape (a failed realloc leaves the larger array in place) -/
 theorem alShrink_clean (g : Oracle) (h : Heap) (hwf : WF h) (a : AlA) (e : Nat) (hb : a.array ∈ h.live)
     (hlen : a.length ≤ SIZE_T_MAX / PTR) :
     Post (alShrink a e) g h (fun r h' => WF h' ∧ h.next ≤ h'.next ∧
       ((r.2 = 0 ∧ AlKeptOrMoved h a r.1 h' ∧ r.1.length = a.length) ∨
-       (r.2 = -1 ∧ r.1 = a ∧ h'.live = h.live ∧ (Failed g h h' ∨ h'.next = h.next)))) := by
-  obtain ⟨_, _, hshr, _⟩ := shape_facts
-  obtain ⟨_, _, _, _, _, _, _, hmin⟩ := al_consts
-  have hS := sizeMax_val
-  have hP := ptr_val
-  unfold alShrink
-  apply Post.bind
-  apply Post.liftO (Arraylist.ckSub_ok _ _ _ hlen)
-  by_cases h0 : e ≥ SIZE_T_MAX / PTR - a.length
-  · rw [if_pos h0]
-    apply Post.pure
-    exact ⟨hwf, Nat.le_refl _, Or.inr ⟨rfl, rfl, rfl, Or.inr rfl⟩⟩
-  · rw [if_neg h0]
-    apply Post.bind
-    apply Post.liftO (ckSize_ok _ _ (by rw [hS, hP] at *; omega))
-    by_cases h1 : a.length + e = a.size
-    · rw [if_pos h1]
-      apply Post.pure
-      exact ⟨hwf, Nat.le_refl _, Or.inl ⟨rfl, ⟨rfl, Or.inl ⟨rfl, rfl, rfl, rfl⟩⟩, rfl⟩⟩
-    · rw [if_neg h1]
-      by_cases h2 : a.length + e > a.size
-      · rw [if_pos h2]
-        apply Post.mono (alExpand_clean g h hwf a _ hb)
-        rintro r h' ⟨hwf', hn', hcase⟩
-        refine ⟨hwf', hn', ?_⟩
-        rcases hcase with ⟨h1', h2', h3', _⟩ | ⟨h1', h2', h3', hf⟩
-        · exact Or.inl ⟨h1', h2', h3'⟩
-        · refine Or.inr ⟨h1', h2', h3', ?_⟩
-          rcases hf with hf | ⟨hf, _⟩
-          · exact Or.inl hf
-          · exact Or.inr hf
-      · rw [if_neg h2, if_neg (by rw [hshr]; decide)]
-        apply Post.bind
-        apply Post.liftO (bytes_ok _ _ (by rw [hmin, hS, hP] at *; split <;> omega))
-        apply Post.bind
-        apply Post.realloc hwf hb
-        · intro hg h1' hn1 hl1 he1 hwf1
-          dsimp only
-          apply Post.pure
-          exact ⟨hwf1, by omega, Or.inl ⟨rfl, ⟨rfl, Or.inr ⟨hl1, hn1, rfl⟩⟩, rfl⟩⟩
-        · intro hg h1' hn1 hl1 he1 hwf1
-          dsimp only
-          apply Post.pure
-          exact ⟨hwf1, by omega, Or.inr ⟨rfl, rfl, hl1, Or.inl ⟨h.next + 1, by omega, by omega, hg⟩⟩⟩
+       (r.2 = -1 ∧ r.1 = a ∧ h'.live = h.live ∧ (Failed g h h' ∨ h'.next = h.next)))) :=
+  alShrink_spec g h hwf a e hb hlen
 
 /-- array_list_add: length + 1 inside the capacity, or -1 with the list and the heap unchanged -/
 theorem alAdd_clean (g : Oracle) (h : Heap) (hwf : WF h) (a : AlA) (hb : a.array ∈ h.live) :
@@ -291,37 +96,15 @@ theorem alAdd_clean (g : Oracle) (h : Heap) (hwf : WF h) (a : AlA) (hb : a.array
       ((r.2 = 0 ∧ AlKeptOrMoved h a r.1 h' ∧ r.1.length = a.length + 1 ∧ r.1.length ≤ r.1.size ∧
           (r.1.size = a.size ∨ (a.size ≤ a.length + 1 ∧ (r.1.size = a.length + 1 ∨ r.1.size = a.size * 2)))) ∨
        (r.2 = -1 ∧ r.1 = a ∧ h'.live = h.live ∧
-          (Failed g h h' ∨ (h'.next = h.next ∧ (a.length + 1 > SIZE_T_MAX / PTR ∨ a.size * 2 > SIZE_T_MAX / PTR)))))) := by
-  obtain ⟨_, _, hg1, hn1, _⟩ := al_consts
-  have hS := sizeMax_val
-  have hP := ptr_val
-  unfold alAdd
-  by_cases h0 : a.length > SIZE_T_MAX - alAddGuard
-  · rw [if_pos h0]
-    apply Post.pure
-    refine ⟨hwf, Nat.le_refl _, Or.inr ⟨rfl, rfl, rfl, Or.inr ⟨rfl, Or.inl ?_⟩⟩⟩
-    rw [hg1, hS] at h0; rw [hS, hP]; omega
-  · rw [if_neg h0]
-    apply Post.seq (alExpand_clean g h hwf a _ hb)
-    rintro ⟨a1, rc⟩ h' ⟨hwf', hn', hcase⟩
-    rcases hcase with ⟨hrc, hk, hlen, hcap, hsz⟩ | ⟨hrc, ha, hl, hf⟩
-    · simp only at hrc hk hlen hcap hsz
-      subst hrc
-      dsimp only
-      rw [if_neg (by decide)]
-      apply Post.pure
-      refine ⟨hwf', hn', Or.inl ⟨rfl, ⟨hk.1, ?_⟩, ?_, ?_, ?_⟩⟩
-      · exact hk.2
-      · dsimp only; rw [hlen]
-      · dsimp only; rw [hlen]; rw [hn1] at hcap; exact hcap
-      · dsimp only; rw [hn1] at hsz; exact hsz
-    · simp only at hrc ha hl
-      subst hrc; subst ha
-      dsimp only
-      rw [if_pos (by decide)]
-      apply Post.pure
-      refine ⟨hwf', hn', Or.inr ⟨rfl, rfl, hl, ?_⟩⟩
-      rw [hn1] at hf; exact hf
+          (Failed g h h' ∨ (h'.next = h.next ∧ (a.length + 1 > SIZE_T_MAX / PTR ∨ a.size * 2 > SIZE_T_MAX / PTR)))))) :=
+  alAdd_spec g h hwf a hb
+
+/-- array_list_put_idx (capacity and length): like add -/
+theorem alPutIdx_clean (g : Oracle) (h : Heap) (hwf : WF h) (a : AlA) (idx : Nat) (hb : a.array ∈ h.live) :
+    Post (alPutIdx a idx) g h (fun r h' => WF h' ∧ h.next ≤ h'.next ∧
+      ((r.2 = 0 ∧ AlKeptOrMoved h a r.1 h' ∧ idx < r.1.size) ∨
+       (r.2 = -1 ∧ r.1 = a ∧ h'.live = h.live))) :=
+  alPutIdx_spec g h hwf a idx hb
 
 /-! ## linkhash.c -/
 
@@ -330,33 +113,8 @@ theorem lhNew_clean (g : Oracle) (h : Heap) (hwf : WF h) (size : Nat) (hs : 0 < 
     Post (lhNew size) g h (fun r h' => WF h' ∧ h.next ≤ h'.next ∧
       ((∃ t, r = some t ∧ h'.live = h.live ++ [t.self, t.table] ∧ t.size = size ∧ t.count = 0 ∧
           h'.next = h.next + 2 ∧ t.self.id = h.next + 1 ∧ t.table.id = h.next + 2) ∨
-       (r = none ∧ h'.live = h.live ∧ Failed g h h'))) := by
-  unfold lhNew
-  rw [if_neg (by omega)]
-  unfold calloc
-  apply Post.bind
-  apply Post.alloc hwf
-  · intro hg h1 hn hl he hwf1
-    dsimp only
-    apply Post.bind
-    apply Post.alloc hwf1
-    · intro hg2 h2 hn2 hl2 he2 hwf2
-      dsimp only
-      apply Post.pure
-      refine ⟨hwf2, by omega, Or.inl ⟨_, rfl, ?_, rfl, rfl, by omega, rfl, by dsimp only; omega⟩⟩
-      simp [hl2, hl, hn]
-    · intro hg2 h2 hn2 hl2 he2 hwf2
-      dsimp only
-      apply Post.bind
-      apply Post.free hwf2 (by simp [hl2, hl])
-      intro h3 hn3 hl3 he3 hwf3
-      apply Post.pure
-      refine ⟨hwf3, by omega, Or.inr ⟨rfl, ?_, ⟨h1.next + 1, by omega, by omega, hg2⟩⟩⟩
-      rw [hl3, hl2, hl, filter_append_self (fresh_not_mem hwf _)]
-  · intro hg h1 hn hl he hwf1
-    dsimp only
-    apply Post.pure
-    exact ⟨hwf1, by omega, Or.inr ⟨rfl, hl, ⟨h.next + 1, by omega, by omega, hg⟩⟩⟩
+       (r = none ∧ h'.live = h.live ∧ Failed g h h'))) :=
+  lhNew_spec g h hwf size hs
 
 /-- lh_table_resize when re-filling the new table cannot itself trigger a resize (`new_size = 2 S`
 with at most `S` entries; this is how lh_table_insert_w_hash calls it): the entry array is replaced,
@@ -366,47 +124,8 @@ theorem lhResizeWith_clean (g : Oracle) (h : Heap) (hwf : WF h) (f : Nat) (t : L
     Post (lhResizeWith (lhInsertN f) t (S * 2)) g h (fun r h' => WF h' ∧ h.next ≤ h'.next ∧
       ((r.2 = 0 ∧ r.1.self = t.self ∧ r.1.count = t.count ∧ r.1.size = S * 2 ∧
           h'.live = h.live.filter (· != t.table) ++ [r.1.table] ∧ h'.next = h.next + 2 ∧ r.1.table.id = h.next + 2) ∨
-       (r.2 = -1 ∧ r.1 = t ∧ h'.live = h.live ∧ Failed g h h'))) := by
-  unfold lhResizeWith
-  apply Post.seq (lhNew_clean g h hwf (S * 2) (by omega))
-  rintro r h1 ⟨hwf1, hn1, hcase⟩
-  rcases hcase with ⟨nt, rfl, hl1, hsz, hcnt, hnx, hid1, hid2⟩ | ⟨rfl, hl1, hf⟩
-  · dsimp only
-    apply Post.bind
-    apply Post.of_eq (lhRebuild_noalloc f S hSm t.count nt hsz (by omega) g h1)
-    dsimp only
-    have htab1 : t.table ∈ h1.live := by rw [hl1]; simp [htab]
-    apply Post.bind
-    apply Post.free hwf1 htab1
-    intro h2 hn2 hl2 he2 hwf2
-    apply Post.bind
-    apply Post.free hwf2
-    · rw [hl2, hl1]
-      rw [mem_filter_ne]
-      refine ⟨by simp, ?_⟩
-      show nt.self ≠ t.table
-      have : nt.self ≠ t.table := by
-        intro e
-        have := hwf.2 _ htab
-        rw [← e, hid1] at this
-        omega
-      exact this
-    · intro h3 hn3 hl3 he3 hwf3
-      apply Post.pure
-      refine ⟨hwf3, by omega, Or.inl ⟨rfl, rfl, rfl, ?_, ?_, by omega, hid2⟩⟩
-      · dsimp only; split
-        · rfl
-        · exact hsz
-      · rw [hl3, hl2, hl1]
-        dsimp only
-        apply resize_live
-        · intro hm; have := hwf.2 _ hm; omega
-        · intro e; have := hwf.2 _ htab; rw [← e, hid1] at this; omega
-        · intro e; have := hwf.2 _ htab; rw [← e, hid2] at this; omega
-        · intro e; rw [e] at hid2; omega
-  · dsimp only
-    apply Post.pure
-    exact ⟨hwf1, hn1, Or.inr ⟨rfl, rfl, hl1, hf⟩⟩
+       (r.2 = -1 ∧ r.1 = t ∧ h'.live = h.live ∧ Failed g h h'))) :=
+  lhResizeWith_spec g h hwf f t S htab hS hSm hc
 
 /-- lh_table_insert_w_hash (allocation behaviour): count + 1 with the entry array kept or doubled, or
 -1 (the resize could not allocate) with the table and the heap unchanged -/
@@ -416,181 +135,44 @@ theorem lhInsert_clean (g : Oracle) (h : Heap) (hwf : WF h) (t : LhA) (htab : t.
           ((r.1.table = t.table ∧ r.1.size = t.size ∧ h'.live = h.live ∧ h'.next = h.next) ∨
            (r.1.size = t.size * 2 ∧ h'.live = h.live.filter (· != t.table) ++ [r.1.table] ∧
               h'.next = h.next + 2 ∧ r.1.table.id = h.next + 2 ∧ t.size ≤ 2 * t.count + 1))) ∨
-       (r.2 = -1 ∧ r.1 = t ∧ h'.live = h.live ∧ Failed g h h'))) := by
-  obtain ⟨hpos, hcs, hsm⟩ := hok
-  have hI := intMax_nat
-  unfold lhInsert lhFuel
-  show Post (lhInsertN (63 + 1) t) g h _
-  unfold lhInsertN
-  cases hlt : Linkhash.loadTest t.count t.size
-  · simp only [Bool.false_eq_true, ↓reduceIte]
-    apply Post.pure
-    have := Linkhash.lt_size_of_loadTest_false t.count t.size (by omega) hlt
-    exact ⟨hwf, Nat.le_refl _, Or.inl ⟨rfl, rfl, rfl, by dsimp only; omega, Or.inl ⟨rfl, rfl, rfl, rfl⟩⟩⟩
-  · simp only [↓reduceIte]
-    rw [if_neg (by omega)]
-    rw [if_neg (by omega)]
-    apply Post.seq (lhResizeWith_clean g h hwf 63 t t.size htab hpos (by omega) hcs)
-    rintro ⟨t1, rc⟩ h' ⟨hwf', hn', hcase⟩
-    rcases hcase with ⟨hrc, hs, hc, hsz, hl, hnx, hid⟩ | ⟨hrc, ht, hl, hf⟩
-    · simp only at hrc hs hc hsz hl hnx hid
-      subst hrc
-      dsimp only
-      rw [if_neg (by decide)]
-      apply Post.pure
-      refine ⟨hwf', hn', Or.inl ⟨rfl, hs, by dsimp only; rw [hc], by dsimp only; omega,
-        Or.inr ⟨hsz, hl, hnx, hid, size_le_of_loadTest t.count t.size (by omega) hlt⟩⟩⟩
-    · simp only at hrc ht hl
-      subst hrc; subst ht
-      dsimp only
-      rw [if_pos (by decide)]
-      apply Post.pure
-      exact ⟨hwf', hn', Or.inr ⟨rfl, rfl, hl, hf⟩⟩
+       (r.2 = -1 ∧ r.1 = t ∧ h'.live = h.live ∧ Failed g h h'))) :=
+  lhInsert_spec g h hwf t htab hok
 
 /-! ## json_object.c: constructors -/
 
 /-- json_object_new_boolean / _double / _int64 / _uint64: one block or NULL -/
 theorem newPrim_clean (g : Oracle) (h : Heap) (hwf : WF h) (k : PrimKind) :
     Post (newPrim k) g h (fun r h' => WF h' ∧ h.next ≤ h'.next ∧ h'.live = h.live ++ owned r ∧
-      ((∃ b, r = .prim k b ∧ b.id = h.next + 1 ∧ h'.errno = h.errno) ∨ (r = .null ∧ Failed g h h'))) := by
-  unfold newPrim malloc
-  apply Post.bind
-  apply Post.alloc hwf
-  · intro hg h1 hn hl he hwf1
-    dsimp only
-    apply Post.pure
-    exact ⟨hwf1, by omega, by simp [owned, hl], Or.inl ⟨_, rfl, rfl, he⟩⟩
-  · intro hg h1 hn hl he hwf1
-    dsimp only
-    apply Post.pure
-    exact ⟨hwf1, by omega, by simp [owned, hl], Or.inr ⟨rfl, ⟨h.next + 1, by omega, by omega, hg⟩⟩⟩
+      ((∃ b, r = .prim k b ∧ b.id = h.next + 1 ∧ h'.errno = h.errno) ∨ (r = .null ∧ Failed g h h'))) :=
+  newPrim_spec g h hwf k
 
 /-- json_object_new_string_len: one block holding header and bytes, or NULL (refused length: no call) -/
 theorem newStringLen_clean (g : Oracle) (h : Heap) (hwf : WF h) (s : Bytes) :
     Post (newStringLen s) g h (fun r h' => WF h' ∧ h.next ≤ h'.next ∧ h'.live = h.live ++ owned r ∧
       ((∃ b, r = .str b s none ∧ b.size = strObjSize s.length ∧ b.id = h.next + 1) ∨
-       (r = .null ∧ (Failed g h h' ∨ (s.length ≥ intMax - strNewIntGuardSlack ∧ h'.next = h.next))))) := by
-  have hI := intMax_nat
-  have hc : strNewIntGuardSlack = 1 ∧ strNewGuardSlack = 1 ∧ ssizeMax = 9223372036854775807 ∧
-      sizeofJsonObjectString - sizeofStringUnion ≤ 1000 := by decide
-  unfold newStringLen
-  by_cases h0 : s.length > ssizeMax - (sizeofJsonObjectString - sizeofStringUnion) - strNewGuardSlack
-  · rw [if_pos h0]
-    apply Post.pure
-    refine ⟨hwf, Nat.le_refl _, by simp [owned], Or.inr ⟨rfl, Or.inr ⟨?_, rfl⟩⟩⟩
-    obtain ⟨c1, c2, c3, c4⟩ := hc
-    rw [c2, c3] at h0; rw [c1, hI]; omega
-  · rw [if_neg h0]
-    by_cases h1 : s.length ≥ intMax - strNewIntGuardSlack
-    · rw [if_pos h1]
-      apply Post.pure
-      exact ⟨hwf, Nat.le_refl _, by simp [owned], Or.inr ⟨rfl, Or.inr ⟨h1, rfl⟩⟩⟩
-    · rw [if_neg h1]
-      unfold malloc
-      apply Post.bind
-      apply Post.alloc hwf
-      · intro hg h1' hn hl he hwf1
-        dsimp only
-        apply Post.pure
-        exact ⟨hwf1, by omega, by simp [owned, hl], Or.inl ⟨_, rfl, rfl, rfl⟩⟩
-      · intro hg h1' hn hl he hwf1
-        dsimp only
-        apply Post.pure
-        exact ⟨hwf1, by omega, by simp [owned, hl], Or.inr ⟨rfl, Or.inl ⟨h.next + 1, by omega, by omega, hg⟩⟩⟩
+       (r = .null ∧ (Failed g h h' ∨ (s.length ≥ intMax - strNewIntGuardSlack ∧ h'.next = h.next))))) :=
+  newStringLen_spec g h hwf s
 
 /-- json_object_new_double_s: node + copy of the text, or NULL with errno ENOMEM and nothing kept -/
 theorem newDoubleS_clean (g : Oracle) (h : Heap) (hwf : WF h) (n : Nat) :
     Post (newDoubleS n) g h (fun r h' => WF h' ∧ h.next ≤ h'.next ∧ h'.live = h.live ++ owned r ∧
       ((∃ b ud, r = .dbls b ud ∧ ud.size = n + 1 ∧ b.id = h.next + 1 ∧ ud.id = h.next + 2) ∨
-       (r = .null ∧ Failed g h h' ∧ h'.errno = .ENOMEM))) := by
-  unfold newDoubleS malloc strdup
-  apply Post.bind
-  apply Post.alloc hwf
-  · intro hg h1 hn hl he hwf1
-    dsimp only
-    apply Post.bind
-    apply Post.alloc hwf1
-    · intro hg2 h2 hn2 hl2 he2 hwf2
-      dsimp only
-      apply Post.pure
-      exact ⟨hwf2, by omega, by simp [owned, hl2, hl, hn], Or.inl ⟨_, _, rfl, rfl, rfl, by dsimp only; omega⟩⟩
-    · intro hg2 h2 hn2 hl2 he2 hwf2
-      dsimp only
-      apply Post.bind
-      apply Post.free hwf2 (by simp [hl2, hl])
-      intro h3 hn3 hl3 he3 hwf3
-      apply Post.bind
-      apply Post.setErrno
-      intro h4 hn4 hl4 he4
-      apply Post.pure
-      refine ⟨hwf3.step (by omega) hl4, by omega, ?_, Or.inr ⟨rfl, ⟨h1.next + 1, by omega, by omega, hg2⟩, he4⟩⟩
-      rw [hl4, hl3, hl2, hl, filter_append_self (fresh_not_mem hwf _)]; simp [owned]
-  · intro hg h1 hn hl he hwf1
-    dsimp only
-    apply Post.pure
-    exact ⟨hwf1, by omega, by simp [owned, hl], Or.inr ⟨rfl, ⟨h.next + 1, by omega, by omega, hg⟩, he⟩⟩
+       (r = .null ∧ Failed g h h' ∧ h'.errno = .ENOMEM))) :=
+  newDoubleS_spec g h hwf n
 
 /-- json_object_new_array_ext: node + array_list + slot array, or NULL with nothing kept -/
 theorem newArrayExt_clean (g : Oracle) (h : Heap) (hwf : WF h) (n : Int) :
     Post (newArrayExt n) g h (fun r h' => WF h' ∧ h.next ≤ h'.next ∧ h'.live = h.live ++ owned r ∧
       ((∃ b al, r = .arr b al [] ∧ al.size = n.toNat ∧ al.length = 0 ∧ 0 ≤ n) ∨
-       (r = .null ∧ (Failed g h h' ∨ n < 0 ∨ n.toNat ≥ SIZE_T_MAX / PTR)))) := by
-  unfold newArrayExt malloc
-  apply Post.bind
-  apply Post.alloc hwf
-  · intro hg h1 hn hl he hwf1
-    dsimp only
-    apply Post.seq (alNew2_clean g h1 hwf1 n)
-    rintro r h2 ⟨hwf2, hn2, hcase⟩
-    rcases hcase with ⟨a, rfl, hl2, hsz, hlen, hpos⟩ | ⟨rfl, hl2, hf⟩
-    · dsimp only
-      apply Post.pure
-      exact ⟨hwf2, by omega, by simp [owned, ownedList, hl2, hl], Or.inl ⟨_, _, rfl, hsz, hlen, hpos⟩⟩
-    · dsimp only
-      apply Post.bind
-      apply Post.free hwf2 (by simp [hl2, hl])
-      intro h3 hn3 hl3 he3 hwf3
-      apply Post.pure
-      refine ⟨hwf3, by omega, ?_, Or.inr ⟨rfl, ?_⟩⟩
-      · rw [hl3, hl2, hl, filter_append_self (fresh_not_mem hwf _)]; simp [owned]
-      · rcases hf with hf | ⟨hr, _⟩
-        · exact Or.inl (hf.widen (by omega) (by omega))
-        · exact Or.inr hr
-  · intro hg h1 hn hl he hwf1
-    dsimp only
-    apply Post.pure
-    exact ⟨hwf1, by omega, by simp [owned, hl], Or.inr ⟨rfl, Or.inl ⟨h.next + 1, by omega, by omega, hg⟩⟩⟩
+       (r = .null ∧ (Failed g h h' ∨ n < 0 ∨ n.toNat ≥ SIZE_T_MAX / PTR)))) :=
+  newArrayExt_spec g h hwf n
 
 /-- json_object_new_object: node + lh_table + entry array, or NULL with errno ENOMEM and nothing kept -/
 theorem newObject_clean (g : Oracle) (h : Heap) (hwf : WF h) :
     Post newObject g h (fun r h' => WF h' ∧ h.next ≤ h'.next ∧ h'.live = h.live ++ owned r ∧
       ((∃ b lh, r = .obj b lh [] ∧ lh.size = objectDefHashEntries ∧ lh.count = 0) ∨
-       (r = .null ∧ Failed g h h' ∧ h'.errno = .ENOMEM))) := by
-  unfold newObject malloc
-  apply Post.bind
-  apply Post.alloc hwf
-  · intro hg h1 hn hl he hwf1
-    dsimp only
-    apply Post.seq (lhNew_clean g h1 hwf1 objectDefHashEntries (by decide))
-    rintro r h2 ⟨hwf2, hn2, hcase⟩
-    rcases hcase with ⟨t, rfl, hl2, hsz, hcnt, _⟩ | ⟨rfl, hl2, hf⟩
-    · dsimp only
-      apply Post.pure
-      exact ⟨hwf2, by omega, by simp [owned, ownedMembers, hl2, hl], Or.inl ⟨_, _, rfl, hsz, hcnt⟩⟩
-    · dsimp only
-      apply Post.bind
-      apply Post.free hwf2 (by simp [hl2, hl])
-      intro h3 hn3 hl3 he3 hwf3
-      apply Post.bind
-      apply Post.setErrno
-      intro h4 hn4 hl4 he4
-      apply Post.pure
-      refine ⟨hwf3.step (by omega) hl4, by omega, ?_, Or.inr ⟨rfl, hf.widen (by omega) (by omega), he4⟩⟩
-      rw [hl4, hl3, hl2, hl, filter_append_self (fresh_not_mem hwf _)]; simp [owned]
-  · intro hg h1 hn hl he hwf1
-    dsimp only
-    apply Post.pure
-    exact ⟨hwf1, by omega, by simp [owned, hl], Or.inr ⟨rfl, ⟨h.next + 1, by omega, by omega, hg⟩, he⟩⟩
+       (r = .null ∧ Failed g h h' ∧ h'.errno = .ENOMEM))) :=
+  newObject_spec g h hwf
 
 /-! ## json_tokener.c: constructor -/
 
@@ -598,64 +180,10 @@ theorem newObject_clean (g : Oracle) (h : Heap) (hwf : WF h) :
 theorem tokenerNewEx_clean (g : Oracle) (h : Heap) (hwf : WF h) (depth : Int) :
     Post (tokenerNewEx depth) g h (fun r h' => WF h' ∧ h.next ≤ h'.next ∧
       ((∃ t, r = some t ∧ h'.live = h.live ++ [t.self, t.stack, t.pb.self, t.pb.buf] ∧ t.depth = depth.toNat) ∨
-       (r = none ∧ h'.live = h.live ∧ (Failed g h h' ∨ (depth < 1 ∧ h'.next = h.next))))) := by
-  unfold tokenerNewEx
-  by_cases h0 : depth < 1
-  · rw [if_pos h0]
-    apply Post.pure
-    exact ⟨hwf, Nat.le_refl _, Or.inr ⟨rfl, rfl, Or.inr ⟨h0, rfl⟩⟩⟩
-  · rw [if_neg h0]
-    unfold calloc
-    apply Post.bind
-    apply Post.alloc hwf
-    · intro hg h1 hn hl he hwf1
-      dsimp only
-      apply Post.bind
-      apply Post.alloc hwf1
-      · intro hg2 h2 hn2 hl2 he2 hwf2
-        dsimp only
-        apply Post.seq (pbNew_clean g h2 hwf2)
-        rintro r h3 ⟨hwf3, hn3, hcase⟩
-        rcases hcase with ⟨p, rfl, hl3, _⟩ | ⟨rfl, hl3, hf⟩
-        · dsimp only
-          apply Post.pure
-          exact ⟨hwf3, by omega, Or.inl ⟨_, rfl, by simp [hl3, hl2, hl, hn], rfl⟩⟩
-        · dsimp only
-          apply Post.bind
-          apply Post.free hwf3 (by simp [hl3, hl2, hl])
-          intro h4 hn4 hl4 he4 hwf4
-          apply Post.bind
-          apply Post.free hwf4
-          · rw [hl4, hl3, hl2, hl, hn, mem_filter_ne]
-            refine ⟨by simp, ?_⟩
-            intro e
-            have := congrArg Blk.id e
-            simp at this
-          · intro h5 hn5 hl5 he5 hwf5
-            apply Post.pure
-            refine ⟨hwf5, by omega, Or.inr ⟨rfl, ?_, Or.inl (hf.widen (by omega) (by omega))⟩⟩
-            rw [hl5, hl4, hl3, hl2, hl, hn]
-            have f1 := fresh_not_mem hwf (1 * sizeofJsonTokener)
-            have hw1 : WF { h with next := h.next + 1, live := h.live ++ [⟨h.next + 1, 1 * sizeofJsonTokener⟩] } :=
-              hwf.push _ rfl rfl
-            have f2 := fresh_not_mem hw1 (depth.toNat * sizeofJsonTokenerSrec)
-            rw [filter_append_self f2, filter_append_self f1]
-      · intro hg2 h2 hn2 hl2 he2 hwf2
-        dsimp only
-        apply Post.bind
-        apply Post.free hwf2 (by simp [hl2, hl])
-        intro h3 hn3 hl3 he3 hwf3
-        apply Post.pure
-        refine ⟨hwf3, by omega, Or.inr ⟨rfl, ?_, Or.inl ⟨h1.next + 1, by omega, by omega, hg2⟩⟩⟩
-        rw [hl3, hl2, hl, filter_append_self (fresh_not_mem hwf _)]
-    · intro hg h1 hn hl he hwf1
-      dsimp only
-      apply Post.pure
-      exact ⟨hwf1, by omega, Or.inr ⟨rfl, hl, Or.inl ⟨h.next + 1, by omega, by omega, hg⟩⟩⟩
+       (r = none ∧ h'.live = h.live ∧ (Failed g h h' ∨ (depth < 1 ∧ h'.next = h.next))))) :=
+  tokenerNewEx_spec g h hwf depth
 
-
-/-! ## json_object.c: set_string -/
-
+/-! ## json_object.c: mutators -/
 
 /-- _json_object_set_string_len: the node takes the new bytes (storage kept, external buffer released
 for the empty string, or a fresh buffer replacing the old one — the old one is freed only after the
@@ -669,81 +197,8 @@ theorem setStringLen_clean (g : Oracle) (h : Heap) (hwf : WF h) (b : Blk) (old s
            (∃ nb, pd' = some nb ∧ nb.size = s.length + strGrowNulRoom ∧ nb.id = h.next + 1 ∧
               h'.live = h.live.filter (keep pd.toList) ++ [nb] ∧ h'.next = h.next + 1))) ∨
        (r.2 = 0 ∧ r.1 = .str b old pd ∧ h'.live = h.live ∧
-          (Failed g h h' ∨ (s.length ≥ intMax - strSetGuardSlack ∧ h'.next = h.next))))) := by
-  obtain ⟨hshape, _⟩ := shape_facts
-  unfold setStringLen
-  dsimp only
-  by_cases h0 : s.length ≥ intMax - strSetGuardSlack
-  · rw [if_pos h0]
-    apply Post.pure
-    exact ⟨hwf, Nat.le_refl _, Or.inr ⟨rfl, rfl, rfl, Or.inr ⟨h0, rfl⟩⟩⟩
-  · rw [if_neg h0]
-    cases pd with
-    | none =>
-      dsimp only
-      apply Post.bind
-      apply Post.pure
-      dsimp only
-      by_cases h1 : s.length > old.length
-      · rw [if_pos h1, if_neg (by rw [hshape]; decide)]
-        unfold malloc
-        apply Post.bind
-        apply Post.alloc hwf
-        · intro hg h1' hn hl he hwf1
-          dsimp only
-          apply Post.pure
-          refine ⟨hwf1, by omega, Or.inl ⟨rfl, _, rfl, Or.inr (Or.inr ⟨_, rfl, rfl, rfl, ?_, hn⟩)⟩⟩
-          rw [hl]; simp [filter_keep_nil]
-        · intro hg h1' hn hl he hwf1
-          dsimp only
-          apply Post.pure
-          exact ⟨hwf1, by omega, Or.inr ⟨rfl, rfl, hl, Or.inl ⟨h.next + 1, by omega, by omega, hg⟩⟩⟩
-      · rw [if_neg h1]
-        apply Post.pure
-        exact ⟨hwf, Nat.le_refl _, Or.inl ⟨rfl, _, rfl, Or.inl ⟨rfl, rfl, rfl⟩⟩⟩
-    | some p =>
-      have hp := hpd p rfl
-      dsimp only
-      by_cases hz : s.length = 0
-      · rw [if_pos hz]
-        apply Post.bind
-        apply Post.free hwf hp
-        intro h1 hn1 hl1 he1 hwf1
-        apply Post.bind
-        apply Post.pure
-        dsimp only
-        rw [if_neg (by omega)]
-        apply Post.pure
-        exact ⟨hwf1, by omega, Or.inl ⟨rfl, _, rfl, Or.inr (Or.inl ⟨p, rfl, rfl, hz, hl1, hn1⟩)⟩⟩
-      · rw [if_neg hz]
-        apply Post.bind
-        apply Post.pure
-        dsimp only
-        by_cases h1 : s.length > old.length
-        · rw [if_pos h1, if_neg (by rw [hshape]; decide)]
-          unfold malloc
-          apply Post.bind
-          apply Post.alloc hwf
-          · intro hg h1' hn hl he hwf1
-            dsimp only
-            apply Post.bind
-            apply Post.free hwf1 (by rw [hl]; simp [hp])
-            intro h2 hn2 hl2 he2 hwf2
-            apply Post.pure
-            refine ⟨hwf2, by omega, Or.inl ⟨rfl, _, rfl, Or.inr (Or.inr ⟨_, rfl, rfl, rfl, ?_, by omega⟩)⟩⟩
-            rw [hl2, hl, List.filter_append]
-            have hne : (⟨h.next + 1, s.length + strGrowNulRoom⟩ : Blk) ≠ p := ne_of_fresh hwf hp _ _ (by omega)
-            simp [filter_ne_eq_keep, hne]
-          · intro hg h1' hn hl he hwf1
-            dsimp only
-            apply Post.pure
-            exact ⟨hwf1, by omega, Or.inr ⟨rfl, rfl, hl, Or.inl ⟨h.next + 1, by omega, by omega, hg⟩⟩⟩
-        · rw [if_neg h1]
-          apply Post.pure
-          exact ⟨hwf, Nat.le_refl _, Or.inl ⟨rfl, _, rfl, Or.inl ⟨rfl, rfl, rfl⟩⟩⟩
-
-
-/-! ## json_object.c: array add, member add -/
+          (Failed g h h' ∨ (s.length ≥ intMax - strSetGuardSlack ∧ h'.next = h.next))))) :=
+  setStringLen_spec g h hwf b old s pd hpd
 
 /-- json_object_array_add: the value is appended (slot array kept or replaced), or -1 with the array
 and the heap unchanged (the caller still owns the value) -/
@@ -753,94 +208,17 @@ theorem arrayAdd_clean (g : Oracle) (h : Heap) (hwf : WF h) (b : Blk) (al : AlA)
       ((r.2 = 0 ∧ ∃ al', r.1 = .arr b al' (es ++ [val]) ∧ AlKeptOrMoved h al al' h' ∧ al'.length = al.length + 1 ∧
           (al'.size = al.size ∨ (al.size ≤ al.length + 1 ∧ (al'.size = al.length + 1 ∨ al'.size = al.size * 2)))) ∨
        (r.2 = -1 ∧ r.1 = .arr b al es ∧ h'.live = h.live ∧
-          (Failed g h h' ∨ (h'.next = h.next ∧ (al.length + 1 > SIZE_T_MAX / PTR ∨ al.size * 2 > SIZE_T_MAX / PTR)))))) := by
-  unfold arrayAdd
-  apply Post.seq (alAdd_clean g h hwf al hb)
-  rintro ⟨al1, rc⟩ h' ⟨hwf', hn', hcase⟩
-  rcases hcase with ⟨hrc, hk, hlen, _, hsz⟩ | ⟨hrc, ha, hl, hf⟩
-  · simp only at hrc hk hlen hsz
-    subst hrc
-    dsimp only
-    rw [if_neg (by decide)]
-    apply Post.pure
-    exact ⟨hwf', hn', Or.inl ⟨rfl, al1, rfl, hk, hlen, hsz⟩⟩
-  · simp only at hrc ha hl
-    subst hrc; subst ha
-    dsimp only
-    rw [if_pos (by decide)]
-    apply Post.pure
-    exact ⟨hwf', hn', Or.inr ⟨rfl, rfl, hl, hf⟩⟩
+          (Failed g h h' ∨ (h'.next = h.next ∧ (al.length + 1 > SIZE_T_MAX / PTR ∨ al.size * 2 > SIZE_T_MAX / PTR)))))) :=
+  arrayAdd_spec g h hwf b al es val hb
 
-/-- what a successful insertion of a new member leaves -/
-def ObjAdded (h : Heap) (b : Blk) (lh : LhA) (ms : List (Bytes × Option Blk × Node)) (key : Bytes) (val : Node)
-    (constKey : Bool) (r : Node) (h' : Heap) : Prop :=
-  ∃ kb lh', r = .obj b lh' (ms ++ [(key, kb, val)]) ∧ lh'.self = lh.self ∧ lh'.count = lh.count + 1 ∧
-    lh'.count ≤ lh'.size ∧ (constKey = true ↔ kb = none) ∧ (∀ k, kb = some k → k.id = h.next + 1 ∧ k.size = key.length + 1) ∧
-    ((lh'.table = lh.table ∧ lh'.size = lh.size ∧ h'.live = h.live ++ kb.toList ∧ h'.next = h.next + kb.toList.length) ∨
-     (lh'.size = lh.size * 2 ∧ h'.live = h.live.filter (· != lh.table) ++ kb.toList ++ [lh'.table] ∧
-        h'.next = h.next + kb.toList.length + 2 ∧ lh'.table.id = h'.next ∧ lh.size ≤ 2 * lh.count + 1))
-
-theorem objectAddInsert_spec (g : Oracle) (h h1 : Heap) (hwf : WF h) (b : Blk) (lh : LhA)
-    (ms : List (Bytes × Option Blk × Node)) (key : Bytes) (val : Node) (constKey : Bool)
-    (htab : lh.table ∈ h.live) (hok : LhOK lh)
-    (kb : Option Blk) (hwf1 : WF h1) (hl1 : h1.live = h.live ++ kb.toList)
-    (hn1 : h1.next = h.next + kb.toList.length) (hck : constKey = true ↔ kb = none)
-    (hkid : ∀ k, kb = some k → k.id = h.next + 1 ∧ k.size = key.length + 1) :
-    Post (objectAddInsert b lh ms key kb val) g h1 (fun r h' => WF h' ∧ h.next ≤ h'.next ∧
-      ((r.2 = 0 ∧ ObjAdded h b lh ms key val constKey r.1 h') ∨
-       (r.2 = -1 ∧ r.1 = .obj b lh ms ∧ h'.live = h.live ∧ Failed g h1 h'))) := by
-  obtain ⟨_, _, _, _, _, hfree, _⟩ := shape_facts
-  have htab1 : lh.table ∈ h1.live := by rw [hl1]; simp [htab]
-  unfold objectAddInsert
-  apply Post.seq (lhInsert_clean g h1 hwf1 lh htab1 hok)
-  rintro ⟨lh1, rc⟩ h2 ⟨hwf2, hn2, hcase⟩
-  rcases hcase with ⟨hrc, hs, hc, hcs, hkm⟩ | ⟨hrc, ht, hl2, hf⟩
-  · simp only at hrc hs hc hcs hkm
-    subst hrc
-    dsimp only
-    rw [if_neg (by decide)]
-    apply Post.pure
-    refine ⟨hwf2, by omega, Or.inl ⟨rfl, kb, lh1, rfl, hs, hc, hcs, hck, hkid, ?_⟩⟩
-    rcases hkm with ⟨ht, hsz, hl2, hnx⟩ | ⟨hsz, hl2, hnx, hid, hgrow⟩
-    · exact Or.inl ⟨ht, hsz, by rw [hl2, hl1], by omega⟩
-    · refine Or.inr ⟨hsz, ?_, by omega, by omega, hgrow⟩
-      rw [hl2, hl1, List.filter_append]
-      congr 2
-      apply filter_ne_fresh
-      intro hm
-      cases kb with
-      | none => simp at hm
-      | some k =>
-        simp only [Option.toList_some, List.mem_singleton] at hm
-        have hk1 := (hkid k rfl).1
-        have hk2 := hwf.2 _ htab
-        rw [hm] at hk2
-        omega
-  · simp only at hrc ht hl2
-    subst hrc; subst ht
-    dsimp only
-    rw [if_pos (by decide), hfree]
-    simp only [↓reduceIte]
-    cases kb with
-    | none =>
-      dsimp only
-      apply Post.pure
-      refine ⟨hwf2, by omega, Or.inr ⟨rfl, rfl, ?_, hf⟩⟩
-      rw [hl2, hl1]; simp
-    | some k =>
-      dsimp only
-      apply Post.bind
-      apply Post.free hwf2 (by rw [hl2, hl1]; simp)
-      intro h3 hn3 hl3 he3 hwf3
-      apply Post.pure
-      refine ⟨hwf3, by omega, Or.inr ⟨rfl, rfl, ?_, hf.widen (Nat.le_refl _) (by omega)⟩⟩
-      rw [hl3, hl2, hl1]
-      simp only [Option.toList_some]
-      apply filter_append_self
-      intro hm
-      have hk1 := (hkid k rfl).1
-      have hk2 := hwf.2 _ hm
-      omega
+/-- json_object_array_put_idx: the slot takes the value (the element it held is released), or -1 with
+the array and the heap unchanged -/
+theorem arrayPutIdx_clean (g : Oracle) (h : Heap) (hwf : WF h) (b : Blk) (al : AlA) (es : List Node) (idx : Nat)
+    (val : Node) (ho : OwnedIn h (owned (.arr b al es))) :
+    Post (arrayPutIdx (.arr b al es) idx val) g h (fun r h' => WF h' ∧ h.next ≤ h'.next ∧
+      ((r.2 = 0 ∧ ∃ al', r.1 = .arr b al' (putElems es idx val).2 ∧ al'.self = al.self) ∨
+       (r.2 = -1 ∧ r.1 = .arr b al es ∧ h'.live = h.live))) :=
+  arrayPutIdx_spec g h hwf b al es idx val ho
 
 /-- json_object_object_add_ex.
   * existing key: the old value is released and replaced, no allocation, rc 0;
@@ -856,56 +234,129 @@ theorem objectAddEx_clean (g : Oracle) (h : Heap) (hwf : WF h) (b : Blk) (lh : L
       ((r.2 = 0 ∧ ∃ i, keyIsNew = false ∧ findKey key ms = some i ∧ r.1 = .obj b lh (setMemberVal ms i val) ∧
           h'.live = h.live.filter (keep (owned (memberVal ms i))) ∧ h'.next = h.next) ∨
        (r.2 = 0 ∧ (keyIsNew = true ∨ findKey key ms = none) ∧ ObjAdded h b lh ms key val constKey r.1 h') ∨
-       (r.2 = -1 ∧ r.1 = .obj b lh ms ∧ h'.live = h.live ∧ Failed g h h'))) := by
-  obtain ⟨_, _, _, _, _, _, hchk, _⟩ := shape_facts
-  unfold objectAddEx
-  dsimp only
-  cases hfk : (if keyIsNew = true then none else findKey key ms) with
-  | some i =>
-    have hnew : keyIsNew = false := by
-      cases keyIsNew with
-      | true => simp at hfk
-      | false => rfl
-    have hfind : findKey key ms = some i := by rw [hnew] at hfk; simpa using hfk
-    dsimp only
-    apply Post.seq (putNode_spec _ g h hwf (hold i hnew hfind))
-    rintro _ h1 ⟨hwf1, hn1, he1, hl1⟩
-    apply Post.pure
-    exact ⟨hwf1, by omega, Or.inl ⟨rfl, i, hnew, hfind, rfl, hl1, hn1⟩⟩
-  | none =>
-    have hnone : keyIsNew = true ∨ findKey key ms = none := by
-      cases keyIsNew with
-      | true => exact Or.inl rfl
-      | false => right; simpa using hfk
-    dsimp only
-    rw [if_neg (by rw [hchk]; decide)]
-    cases constKey with
-    | true =>
-      rw [if_pos rfl]
-      apply Post.mono (objectAddInsert_spec g h h hwf b lh ms key val true htab hok none hwf (by simp) (by simp) (by simp) (by simp))
-      rintro r h' ⟨hw, hn, hc⟩
-      refine ⟨hw, hn, ?_⟩
-      rcases hc with ⟨h1', h2'⟩ | hc
-      · exact Or.inr (Or.inl ⟨h1', hnone, h2'⟩)
-      · exact Or.inr (Or.inr hc)
-    | false =>
-      rw [if_neg (by decide)]
-      unfold strdup
-      apply Post.bind
-      apply Post.alloc hwf
-      · intro hg h1 hn hl he hwf1
-        dsimp only
-        apply Post.mono (objectAddInsert_spec g h h1 hwf b lh ms key val false htab hok (some ⟨h.next + 1, key.length + 1⟩) hwf1
-          (by simpa using hl) (by simpa using hn) (by simp) (by simp))
-        rintro r h' ⟨hw, hn', hc⟩
-        refine ⟨hw, hn', ?_⟩
-        rcases hc with ⟨h1', h2'⟩ | ⟨h1', h2', h3', h4'⟩
-        · exact Or.inr (Or.inl ⟨h1', hnone, h2'⟩)
-        · exact Or.inr (Or.inr ⟨h1', h2', h3', h4'.widen (by omega) (Nat.le_refl _)⟩)
-      · intro hg h1 hn hl he hwf1
-        dsimp only
-        apply Post.pure
-        exact ⟨hwf1, by omega, Or.inr (Or.inr ⟨rfl, rfl, hl, ⟨h.next + 1, by omega, by omega, hg⟩⟩)⟩
+       (r.2 = -1 ∧ r.1 = .obj b lh ms ∧ h'.live = h.live ∧ Failed g h h'))) :=
+  objectAddEx_spec g h hwf b lh ms key val keyIsNew constKey htab hok hold
+
+/-! ## json_object_put, json_object_deep_copy -/
+
+/-- json_object_put of an unshared tree releases exactly the blocks the tree owns -/
+theorem putNode_releases (t : Node) (g : Oracle) (h : Heap) (hwf : WF h) (ho : OwnedIn h (owned t)) :
+    Post (putNode t) g h (fun _ h' => WF h' ∧ h'.next = h.next ∧ h'.errno = h.errno ∧
+      h'.live = h.live.filter (keep (owned t))) :=
+  putNode_spec t g h hwf ho
+
+/-- json_object_deep_copy: returns 0 and a new tree whose blocks are exactly the blocks added to the
+heap, or returns -1 with *dst == NULL and the heap exactly as before (the partial copy is released at
+every level: `allocDeepCopyPutsChild`, `allocDeepCopyPutsPartial`); -1 only if an allocation was refused -/
+theorem deepCopy_clean (g : Oracle) (h : Heap) (hwf : WF h) (src : Node) (hsrc : srcOK src) (hnn : src ≠ .null) :
+    Post (deepCopy src) g h (fun r h' => WF h' ∧ h.next ≤ h'.next ∧
+      ((r.1 = 0 ∧ ∃ N, h'.live = h.live ++ N ∧ N.Perm (owned r.2)) ∨
+       (r.1 = -1 ∧ r.2 = .null ∧ h'.live = h.live ∧ Failed g h h'))) :=
+  deepCopy_spec g h hwf src hsrc hnn
+
+/-! ## json_pointer_set -/
+
+/-- json_pointer_set_single_path: 0, or -1 with the parent and the heap unchanged (the working copy of
+the key is freed on both paths: `allocPtrSetFreesKey`) -/
+theorem ptrSetSingle_clean (g : Oracle) (h : Heap) (hwf : WF h) (parent : Node) (plan : PtrPlan) (value : Node)
+    (ho : OwnedIn h (owned parent)) (hlh : ∀ b lh ms, parent = .obj b lh ms → LhOK lh) :
+    Post (ptrSetSingle parent plan value) g h (fun r h' => WF h' ∧ h.next ≤ h'.next ∧
+      (r.2 = 0 ∨ (r.2 = -1 ∧ r.1 = parent ∧ h'.live = h.live))) :=
+  ptrSetSingle_spec g h hwf parent plan value ho hlh
+
+/-- json_pointer_set: never faults; on failure (bad path, missing parent, refused allocation — the
+working copy of the path is freed first: `allocPtrSetFreesPathCopy`) the tree and the heap are unchanged -/
+theorem pointerSet_clean_partial (g : Oracle) (h : Heap) (hwf : WF h) (root value : Node) (plan : PtrPlan)
+    (ho : OwnedIn h (owned root))
+    (hlh : ∀ pos b lh ms, nodeAt root pos = some (.obj b lh ms) → LhOK lh)
+    (hplan : ∀ pos, plan.parentPos = some pos → (nodeAt root pos).isSome) :
+    Post (pointerSet root plan value) g h (fun r h' => WF h' ∧ h.next ≤ h'.next ∧
+      (r.2 = 0 ∨ (r.2 = -1 ∧ r.1 = root ∧ h'.live = h.live))) :=
+  pointerSet_partial_spec g h hwf root value plan ho hlh hplan
+
+/-! ## json_tokener.c: attaching a completed child -/
+
+/-- json_tokener_parse_ex, state array_add: the child is attached, or — memory error — the array and
+everything else is unchanged and the child (which has no other owner) is released:
+`allocTokAttachPutsChild` (the fix of the `obj` leak) -/
+theorem tokAttachArray_clean (g : Oracle) (h : Heap) (hwf : WF h) (b : Blk) (al : AlA) (es : List Node) (child : Node)
+    (hb : al.array ∈ h.live) (hc : OwnedIn h (owned child)) :
+    Post (tokAttachArray (.arr b al es) child) g h (fun r h' => WF h' ∧ h.next ≤ h'.next ∧
+      ((r.2 = false ∧ ∃ al', r.1 = .arr b al' (es ++ [child]) ∧ AlKeptOrMoved h al al' h') ∨
+       (r.2 = true ∧ r.1 = .arr b al es ∧ h'.live = h.live.filter (keep (owned child))))) :=
+  tokAttachArray_spec g h hwf b al es child hb hc
+
+/-- json_tokener_parse_ex, state object_value_add: same for json_object_object_add (a repeated member
+name replaces — and releases — the earlier value) -/
+theorem tokAttachObject_clean (g : Oracle) (h : Heap) (hwf : WF h) (b : Blk) (lh : LhA)
+    (ms : List (Bytes × Option Blk × Node)) (key : Bytes) (child : Node)
+    (htab : lh.table ∈ h.live) (hok : LhOK lh) (hms : OwnedIn h (ownedMembers ms)) (hc : OwnedIn h (owned child)) :
+    Post (tokAttachObject (.obj b lh ms) key child) g h (fun r h' => WF h' ∧ h.next ≤ h'.next ∧
+      ((r.2 = false ∧ ((∃ i, findKey key ms = some i ∧ r.1 = .obj b lh (setMemberVal ms i child) ∧
+              h'.live = h.live.filter (keep (owned (memberVal ms i)))) ∨
+           (findKey key ms = none ∧ ObjAdded h b lh ms key child false r.1 h'))) ∨
+       (r.2 = true ∧ r.1 = .obj b lh ms ∧ h'.live = h.live.filter (keep (owned child))))) :=
+  tokAttachObject_spec g h hwf b lh ms key child htab hok hms hc
+
+/-- the single fault of the property, instantiated for deep copy: a -1 return means call `k` fell
+inside the window (and was the one refused), the heap is as before; a fault-free run returns 0 -/
+theorem deepCopy_single_fault (k : Nat) (h : Heap) (hwf : WF h) (src : Node) (hsrc : srcOK src) (hnn : src ≠ .null) :
+    Post (deepCopy src) (failAt k) h (fun r h' =>
+      (r.1 = 0 ∧ ∃ N, h'.live = h.live ++ N ∧ N.Perm (owned r.2)) ∨
+      (r.1 = -1 ∧ r.2 = .null ∧ h'.live = h.live ∧ h.next < k ∧ k ≤ h'.next)) := by
+  apply Post.mono (deepCopy_clean (failAt k) h hwf src hsrc hnn)
+  rintro r h' ⟨_, _, hc⟩
+  rcases hc with hc | ⟨h1, h2, h3, hf⟩
+  · exact Or.inl hc
+  · exact Or.inr ⟨h1, h2, h3, failed_failAt hf⟩
+
+theorem deepCopy_granted (g : Oracle) (h : Heap) (hwf : WF h) (src : Node) (hsrc : srcOK src) (hnn : src ≠ .null)
+    (hall : ∀ k, h.next < k → g k = true) :
+    Post (deepCopy src) g h (fun r h' => r.1 = 0 ∧ ∃ N, h'.live = h.live ++ N ∧ N.Perm (owned r.2)) := by
+  apply Post.mono (deepCopy_clean g h hwf src hsrc hnn)
+  rintro r h' ⟨_, _, hc⟩
+  rcases hc with hc | ⟨_, _, _, hf⟩
+  · exact hc
+  · exact absurd hf (not_failed_of_granted hall)
+
+/-! ## non-vacuity and the counter-example of the known finding -/
+
+/-- a small tree: [7, "ab"] as jt_build leaves it -/
+def exSrc : Node := .arr ⟨1, 48⟩ ⟨⟨2, 32⟩, ⟨3, 256⟩, 32, 2⟩ [.prim .int ⟨4, 56⟩, .str ⟨5, 57⟩ [97, 98] none]
+def exHeap : Heap := { next := 5, live := [⟨1, 48⟩, ⟨2, 32⟩, ⟨3, 256⟩, ⟨4, 56⟩, ⟨5, 57⟩] }
+
+def liveAfter {α : Type} (o : Outcome (α × Heap)) : Option (List Blk) :=
+  match o with
+  | .ok (_, h) => some h.live
+  | .fault _ => none
+
+def rcOf (o : Outcome ((Int × Node) × Heap)) : Option Int :=
+  match o with
+  | .ok ((rc, _), _) => some rc
+  | .fault _ => none
+
+/-- the hypotheses of `deepCopy_clean` are met by a concrete tree, and the model computes: the third
+call of the copy refused ⇒ -1 and the live list exactly as before; no call refused ⇒ 0 -/
+example : WF exHeap ∧ srcOK exSrc ∧ exSrc ≠ .null := by
+  refine ⟨⟨by decide, by decide⟩, ?_, by intro h; cases h⟩
+  simp only [exSrc, srcOK, srcOKList]
+  decide
+example : rcOf (deepCopy exSrc (failAt 8) exHeap) = some (-1) := by decide
+example : liveAfter (deepCopy exSrc (failAt 8) exHeap) = some exHeap.live := by decide
+example : rcOf (deepCopy exSrc (failAt 0) exHeap) = some 0 := by decide
+
+def exVal : JVal := .arr [.int true 1, .str ([97, 98] ++ List.replicate 31 97)]
+
+def serText (o : Outcome (Option SerRes × Heap)) : Option Bytes :=
+  match o with
+  | .ok (some r, _) => r.text
+  | _ => none
+
+/-- `ser.unchecked-append`, the known finding, at model level: json_object_to_json_string_ext of
+[1,"ab" ++ 31 × "a"] with the third allocator call (the first printbuf_extend realloc) refused returns the
+text [1,""] — neither NULL nor the complete text.  This is why no theorem "serialization returns the
+complete text or nothing" is stated: it is false for the current code. -/
+theorem serialize_truncates : serText (serialize exVal 0 (failAt 3) {}) = some [91, 49, 44, 34, 34, 93] := by decide
 
 
 end JsonC.Alloc
